@@ -191,7 +191,7 @@ func concClient(p *Pkg, c *Case) string {
 					if fnT.In(k).Kind() == reflect.Int && k == 0 {
 						in[k].SetInt(int64(sl.a.Status))
 					} else {
-						fill(in[k], &fillCtx{r: r, mode: "header"}, 0)
+						fill(in[k], &fillCtx{r: r, mode: "respheader"}, 0)
 						if in[k].Kind() == reflect.Interface || in[k].Kind() == reflect.Struct {
 							snapshotBodies(in[k])
 							armCloseErrors(in[k], r)
